@@ -825,6 +825,52 @@ fn factory_cases(ctx: &Arc<Ctx>) {
 	ctx.outcome_n("factory: invalid pipelines", invalid.len() as u64);
 }
 
+
+/// Well-formed pipeline *files* of every size around 4 KiB, 64 KiB and 1 MiB (whitespace, line breaks and long quoted
+/// values are part of the syntax, so a long file is as well-formed as a short one): opened like any container, the
+/// pipeline must be the one the text describes - here: the last operation, which sits at the very end of the
+/// file, takes effect.
+fn long_files(ctx: &Arc<Ctx>) {
+	use versatiles_core::types::TileCoord3;
+	let work = ct::WorkDir::new("c18long");
+	let rt = crate::memsource::runtime(1);
+	let head = "from_debug format=pbf";
+	let tail = "| filter_zoom max=3";
+	let mut sizes: Vec<usize> = vec![];
+	for b in [4096usize, 65536, 1 << 20] {
+		for d in -24i64..=24 {
+			sizes.push((b as i64 + d) as usize);
+		}
+	}
+	let mut n = 0u64;
+	for (si, size) in sizes.iter().enumerate() {
+		for (fi, fill) in [" ", "\n", " \t"].iter().enumerate() {
+			let pad_len = size - head.len() - tail.len();
+			let mut pad: String = fill.repeat(pad_len / fill.len() + 1);
+			pad.truncate(pad_len);
+			let text = format!("{head}{pad}{tail}");
+			let path = work.0.join(format!("long{si}_{fi}.vpl"));
+			std::fs::write(&path, &text).unwrap();
+			ctx.eval();
+			n += 1;
+			let case = json!({"kind": "long file", "bytes": text.len(), "fill": fill});
+			match catch(|| rt.block_on(versatiles_container::get_reader(path.to_str().unwrap()))) {
+				Err(p) => ctx.violation(&format!("opening a pipeline file panics at {}", panic_site(&p)), &format!("{} bytes: {p}", text.len()), case),
+				Ok(Err(e)) => ctx.violation("a well-formed pipeline file is rejected", &format!("{} bytes ({head}<white space>{tail}): {}", text.len(), format!("{e:#}").chars().take(200).collect::<String>()), case),
+				Ok(Ok(r)) => {
+					let at = |z: u8| catch(|| rt.block_on(r.get_tile_data(&TileCoord3 { x: 0, y: 0, z }))).ok().and_then(|v| v.ok()).flatten().is_some();
+					let top = r.get_parameters().bbox_pyramid.get_zoom_max();
+					if top != Some(3) || !at(3) || at(4) {
+						ctx.violation("a well-formed pipeline file builds another pipeline than its text describes", &format!("{} bytes ({head}<white space>{tail}): highest advertised level {top:?}, tile at level 3: {}, at level 4: {}", text.len(), at(3), at(4)), case);
+					}
+				}
+			}
+			let _ = std::fs::remove_file(&path);
+		}
+	}
+	ctx.outcome_n("pipeline files of 4 KiB / 64 KiB / 1 MiB +- 24 bytes x 3 kinds of white space", n);
+}
+
 pub fn run(ctx: Arc<Ctx>) {
 	ctx.rule(
 		"positive: syntax trees (pipelines of 1..3 of 12 node shapes, 0..2 nested sources from 5 nested pipelines incl. a second nesting level) rendered canonically and with every 1 deviation (whitespace variant at each optional site / quoting a bare value) and every 2 deviations for the first trees; \
@@ -835,6 +881,7 @@ pub fn run(ctx: Arc<Ctx>) {
 	positive_space(&ctx);
 	differential(&ctx);
 	factory_cases(&ctx);
+	long_files(&ctx);
 	ctx.exhaustive(true);
 	let _: BTreeMap<u8, u8> = BTreeMap::new();
 }
